@@ -1,0 +1,245 @@
+//go:build verif
+// +build verif
+
+package linker
+
+import (
+	"sort"
+
+	"github.com/evanw/esbuild/internal/ast"
+	"github.com/evanw/esbuild/internal/bundler"
+	"github.com/evanw/esbuild/internal/config"
+	"github.com/evanw/esbuild/internal/fs"
+	"github.com/evanw/esbuild/internal/graph"
+	"github.com/evanw/esbuild/internal/helpers"
+	"github.com/evanw/esbuild/internal/logger"
+	"github.com/evanw/esbuild/internal/resolver"
+	"github.com/evanw/esbuild/internal/runtime"
+)
+
+// Verification hook for property C02 (module-graph semantics). It has the
+// signature of bundler.Linker, runs the linker's own unexported phases
+// (scanImportsAndExports, treeShakingAndCodeSplitting, computeChunks) on a
+// linkerContext set up the way Link sets it up, and copies plain data out of
+// the linker graph. It contains no linking logic of its own.
+
+type VerifC02Record struct {
+	Target  int // source index or -1
+	Kind    uint8
+	HasStar bool // ast.ContainsImportStar
+	HasDef  bool // ast.ContainsDefaultAlias
+}
+
+type VerifC02Import struct {
+	Ref       uint32
+	Alias     string
+	IsStar    bool
+	Record    uint32
+	HasNS     bool // NamespaceRef != InvalidRef
+	Generated bool // symbol.ImportItemStatus == ImportItemGenerated (before linking)
+	Exported  bool
+
+	// after scanImportsAndExports
+	Bound    bool
+	BoundSrc uint32
+	BoundRef uint32
+	NSAlias  bool
+	NSSrc    uint32
+	NSRef    uint32
+	NSName   string
+	Missing  bool // symbol.ImportItemStatus == ImportItemMissing
+}
+
+type VerifC02Export struct {
+	Alias string
+	Src   uint32
+	Ref   uint32
+	Amb   [][2]uint32 // PotentiallyAmbiguousExportStarRefs (source index, ref)
+}
+
+type VerifC02Part struct {
+	Records []uint32
+	Live    bool
+}
+
+type VerifC02File struct {
+	Index  uint32
+	Path   string
+	IsJS   bool
+	Loader uint8
+
+	// linker input (read from the immutable input files)
+	Records      []VerifC02Record
+	Imports      []VerifC02Import
+	NamedExports []VerifC02Export // alias -> local ref (Src unused)
+	Stars        []uint32
+	ExportsKind0 uint8
+	HasLazy      bool
+	UsesExports  bool
+	UsesModule   bool
+	ExportKw     bool
+	IsTS         bool
+	IsEntry      bool
+	ExportsRef   uint32
+
+	// linker state after the phases
+	ExportsKind uint8
+	Wrap        uint8
+	Resolved    []VerifC02Export
+	Sorted      []string // SortedAndFilteredExportAliases
+	Parts       []VerifC02Part
+	Live        bool
+	Distance    uint32
+	Stable      uint32
+}
+
+type VerifC02Dump struct {
+	Reachable []uint32
+	Files     []VerifC02File
+	HasErrors bool
+	Chunks    [][]uint32 // filesInChunkInOrder per JS chunk
+	Entries   []uint32
+}
+
+func verifC02Exports(m map[string]graph.ExportData) []VerifC02Export {
+	out := make([]VerifC02Export, 0, len(m))
+	for alias, e := range m {
+		x := VerifC02Export{Alias: alias, Src: e.SourceIndex, Ref: e.Ref.InnerIndex}
+		for _, a := range e.PotentiallyAmbiguousExportStarRefs {
+			x.Amb = append(x.Amb, [2]uint32{a.SourceIndex, a.Ref.InnerIndex})
+		}
+		out = append(out, x)
+	}
+	sort.Slice(out, func(i, j int) bool { return out[i].Alias < out[j].Alias })
+	return out
+}
+
+func VerifC02Link(
+	options *config.Options,
+	timer *helpers.Timer,
+	log logger.Log,
+	fs fs.FS,
+	res *resolver.Resolver,
+	inputFiles []graph.InputFile,
+	entryPoints []graph.EntryPoint,
+	uniqueKeyPrefix string,
+	reachableFiles []uint32,
+	dataForSourceMaps func() []bundler.DataForSourceMap,
+) *VerifC02Dump {
+	log = wrappedLog(log)
+	c := linkerContext{
+		options:              options,
+		timer:                timer,
+		log:                  log,
+		fs:                   fs,
+		res:                  res,
+		dataForSourceMaps:    dataForSourceMaps,
+		uniqueKeyPrefix:      uniqueKeyPrefix,
+		uniqueKeyPrefixBytes: []byte(uniqueKeyPrefix),
+		graph: graph.CloneLinkerGraph(
+			inputFiles,
+			reachableFiles,
+			entryPoints,
+			options.CodeSplitting,
+		),
+	}
+	runtimeRepr := c.graph.Files[runtime.SourceIndex].InputFile.Repr.(*graph.JSRepr)
+	c.cjsRuntimeRef = runtimeRepr.AST.NamedExports["__commonJSMin"].Ref
+	c.esmRuntimeRef = runtimeRepr.AST.NamedExports["__esmMin"].Ref
+	c.unboundModuleRef = ast.InvalidRef
+
+	dump := &VerifC02Dump{Reachable: append([]uint32{}, reachableFiles...)}
+	for _, e := range c.graph.EntryPoints() {
+		dump.Entries = append(dump.Entries, e.SourceIndex)
+	}
+
+	// linker input
+	for _, sourceIndex := range reachableFiles {
+		in := &inputFiles[sourceIndex]
+		f := VerifC02File{Index: sourceIndex, Path: in.Source.PrettyPaths.Rel, Loader: uint8(in.Loader),
+			IsTS: in.Loader.IsTypeScript(), IsEntry: c.graph.Files[sourceIndex].IsEntryPoint()}
+		if repr, ok := in.Repr.(*graph.JSRepr); ok {
+			f.IsJS = true
+			f.ExportsKind0 = uint8(repr.AST.ExportsKind)
+			f.HasLazy = repr.AST.HasLazyExport
+			f.UsesExports = repr.AST.UsesExportsRef
+			f.UsesModule = repr.AST.UsesModuleRef
+			f.ExportKw = repr.AST.ExportKeyword.Len > 0
+			f.ExportsRef = repr.AST.ExportsRef.InnerIndex
+			for _, r := range repr.AST.ImportRecords {
+				t := -1
+				if r.SourceIndex.IsValid() {
+					t = int(r.SourceIndex.GetIndex())
+				}
+				f.Records = append(f.Records, VerifC02Record{Target: t, Kind: uint8(r.Kind),
+					HasStar: r.Flags.Has(ast.ContainsImportStar), HasDef: r.Flags.Has(ast.ContainsDefaultAlias)})
+			}
+			f.Stars = append([]uint32{}, repr.AST.ExportStarImportRecords...)
+			if sourceIndex != runtime.SourceIndex {
+				for alias, e := range repr.AST.NamedExports {
+					f.NamedExports = append(f.NamedExports, VerifC02Export{Alias: alias, Src: sourceIndex, Ref: e.Ref.InnerIndex})
+				}
+				sort.Slice(f.NamedExports, func(i, j int) bool { return f.NamedExports[i].Alias < f.NamedExports[j].Alias })
+			}
+			for ref, ni := range repr.AST.NamedImports {
+				f.Imports = append(f.Imports, VerifC02Import{Ref: ref.InnerIndex, Alias: ni.Alias, IsStar: ni.AliasIsStar,
+					Record: ni.ImportRecordIndex, HasNS: ni.NamespaceRef != ast.InvalidRef, Exported: ni.IsExported,
+					Generated: repr.AST.Symbols[ref.InnerIndex].ImportItemStatus == ast.ImportItemGenerated})
+			}
+			sort.Slice(f.Imports, func(i, j int) bool { return f.Imports[i].Ref < f.Imports[j].Ref })
+		}
+		dump.Files = append(dump.Files, f)
+	}
+
+	c.scanImportsAndExports()
+	dump.HasErrors = c.log.HasErrors()
+	if !dump.HasErrors {
+		c.treeShakingAndCodeSplitting()
+		c.computeChunks()
+		for i := range c.chunks {
+			if r, ok := c.chunks[i].chunkRepr.(*chunkReprJS); ok {
+				dump.Chunks = append(dump.Chunks, append([]uint32{}, r.filesInChunkInOrder...))
+			}
+		}
+	}
+
+	// linker state
+	for i := range dump.Files {
+		f := &dump.Files[i]
+		file := &c.graph.Files[f.Index]
+		f.Live = file.IsLive
+		f.Distance = file.DistanceFromEntryPoint
+		f.Stable = c.graph.StableSourceIndices[f.Index]
+		repr, ok := file.InputFile.Repr.(*graph.JSRepr)
+		if !ok {
+			continue
+		}
+		f.ExportsKind = uint8(repr.AST.ExportsKind)
+		f.Wrap = uint8(repr.Meta.Wrap)
+		if f.Index != runtime.SourceIndex {
+			f.Resolved = verifC02Exports(repr.Meta.ResolvedExports)
+			f.Sorted = append([]string{}, repr.Meta.SortedAndFilteredExportAliases...)
+		}
+		for _, p := range repr.AST.Parts {
+			f.Parts = append(f.Parts, VerifC02Part{Records: append([]uint32{}, p.ImportRecordIndices...), Live: p.IsLive})
+		}
+		for j := range f.Imports {
+			im := &f.Imports[j]
+			ref := ast.Ref{SourceIndex: f.Index, InnerIndex: im.Ref}
+			if b, ok := repr.Meta.ImportsToBind[ref]; ok {
+				im.Bound = true
+				im.BoundSrc = b.SourceIndex
+				im.BoundRef = b.Ref.InnerIndex
+			}
+			sym := c.graph.Symbols.Get(ref)
+			if sym.NamespaceAlias != nil {
+				im.NSAlias = true
+				im.NSSrc = sym.NamespaceAlias.NamespaceRef.SourceIndex
+				im.NSRef = sym.NamespaceAlias.NamespaceRef.InnerIndex
+				im.NSName = sym.NamespaceAlias.Alias
+			}
+			im.Missing = sym.ImportItemStatus == ast.ImportItemMissing
+		}
+	}
+	return dump
+}
